@@ -698,6 +698,13 @@ def find_group(stmts: Iterable[ast.AST], expected: list, fixed_names: Iterable[s
         if best_c is not None:
             _, n, names, rnames = best_c
             results[i] = (SAME, n, [])
+    # names that take part in a plain variable-to-variable copy anywhere in the function (as written and in canonical form)
+    copied = set()
+    for n, cn in canon_nodes:
+        for x in (n, cn):
+            if isinstance(x, ast.Assign) and len(x.targets) == 1 and isinstance(x.targets[0], ast.Name) and isinstance(x.value, ast.Name):
+                copied.add(x.targets[0].id)
+                copied.add(x.value.id)
     # second pass: the rest, under the renaming found
     for i in range(len(expected)):
         if results[i] is not None:
@@ -717,6 +724,11 @@ def find_group(stmts: Iterable[ast.AST], expected: list, fixed_names: Iterable[s
                     cost = (_target_mismatch(a, out), len(out))
                     if cand is None or cost < cand[2]:
                         cand = (n, out, cost)
+        if cand is not None and any(k == "name" and (a_ in copied or b_ in copied) for k, a_, b_ in cand[1]):
+            # the function copies one of the two names into another variable somewhere (`pid = next_id` ... `next_id = pid + 1`): at this statement the two may hold the same
+            # value, so "another name" is not "another value" -- no verdict instead of a difference
+            results[i] = (OTHER, None, [])
+            continue
         results[i] = (LEAF, cand[0], cand[1]) if cand is not None else (OTHER, None, [])
     # an expected `a, b = x, y` written as two statements in the repository
     for i in range(len(expected)):
